@@ -40,6 +40,13 @@ typedef struct glyph_t glyph_t;
  */
 #define N_GLYPHS_HIGH_WATER  (16384)
 #define N_GLYPHS_LOW_WATER   (8192)
+#if defined(PIXMAN_VERIF) && defined(PIXMAN_VERIF_GLYPH_HIGH_WATER)
+/* small tables for conformance testing; HASH_SIZE stays derived as below */
+#undef N_GLYPHS_HIGH_WATER
+#undef N_GLYPHS_LOW_WATER
+#define N_GLYPHS_HIGH_WATER  (PIXMAN_VERIF_GLYPH_HIGH_WATER)
+#define N_GLYPHS_LOW_WATER   (PIXMAN_VERIF_GLYPH_LOW_WATER)
+#endif
 #define HASH_SIZE (2 * N_GLYPHS_HIGH_WATER)
 #define HASH_MASK (HASH_SIZE - 1)
 
@@ -61,6 +68,63 @@ struct pixman_glyph_cache_t
     pixman_list_t	mru;
     glyph_t *		glyphs[HASH_SIZE];
 };
+
+#ifdef PIXMAN_VERIF
+/* Dump of the table for conformance testing: kind[i] = 0 NULL, 1 tombstone, 2 glyph.
+ * Returns HASH_SIZE; arrays may be NULL.  mru (if not NULL) receives the slot indices in
+ * most-recently-used-first order and *n_mru their number.
+ */
+static unsigned int hash (const void *font_key, const void *glyph_key);
+
+int
+_pixman_verif_glyph_dump (pixman_glyph_cache_t *cache,
+			  int max, int *kind, const void **font_keys, const void **glyph_keys,
+			  int *counters /* n_glyphs, n_tombstones, freeze_count, high, low */,
+			  int *mru, int *n_mru)
+{
+    int i;
+
+    if (counters)
+    {
+	counters[0] = cache->n_glyphs;
+	counters[1] = cache->n_tombstones;
+	counters[2] = cache->freeze_count;
+	counters[3] = N_GLYPHS_HIGH_WATER;
+	counters[4] = N_GLYPHS_LOW_WATER;
+    }
+    for (i = 0; i < HASH_SIZE && i < max; i++)
+    {
+	glyph_t *g = cache->glyphs[i];
+	if (kind)
+	    kind[i] = g == NULL ? 0 : (g == TOMBSTONE ? 1 : 2);
+	if (font_keys)
+	    font_keys[i] = (g && g != TOMBSTONE) ? g->font_key : NULL;
+	if (glyph_keys)
+	    glyph_keys[i] = (g && g != TOMBSTONE) ? g->glyph_key : NULL;
+    }
+    if (mru && n_mru)
+    {
+	pixman_link_t *l;
+	int n = 0;
+	for (l = cache->mru.head; l != (pixman_link_t *)&cache->mru && n < max; l = l->next)
+	{
+	    glyph_t *g = CONTAINER_OF (glyph_t, mru_link, l);
+	    for (i = 0; i < HASH_SIZE; i++)
+		if (cache->glyphs[i] == g)
+		    break;
+	    mru[n++] = i;
+	}
+	*n_mru = n;
+    }
+    return HASH_SIZE;
+}
+
+unsigned int
+_pixman_verif_glyph_hash (const void *font_key, const void *glyph_key)
+{
+    return hash (font_key, glyph_key) & HASH_MASK;
+}
+#endif
 
 static void
 free_glyph (glyph_t *glyph)
